@@ -21,6 +21,84 @@ fn law_violation(law: &str, tys: &[&Ty], extra: &str) -> Violation {
     }
 }
 
+/// Membership as the language itself decides it (`if q: T = v`, a `match` type arm, `? T`): for
+/// every palette value v, every type T of the depth-1 universe (+ struct / function material) and
+/// several static types S of the tested expression (any, v's own type, T when v is in it, unions
+/// with an unrelated member) the three routes answer what `as_type(v).matches(T)` answers - so
+/// the relation the checker reasons with is the one the run-time tests implement, whatever the
+/// checker knows about the tested expression.
+fn language_membership() -> (u64, Vec<Violation>) {
+    use simplesl::variable::Variable;
+    use simplesl::{Code, Interpreter};
+    let mut tys: Vec<Ty> = universe::u1();
+    tys.extend(universe::function_unions().into_iter().take(40));
+    tys.push(Ty::strukt(&[]));
+    tys.push(Ty::strukt(&[("a", Ty::Int)]));
+    tys.push(Ty::strukt(&[("a", Ty::Int), ("b", Ty::Str)]));
+    tys.push(Ty::union([Ty::strukt(&[]), Ty::Int]));
+    tys.push(Ty::arr(Ty::strukt(&[])));
+    let tys: Vec<Ty> = { let mut seen = HashSet::new(); tys.into_iter().filter(|t| seen.insert(normal(t).print())).collect() };
+    let n_recipes = RECIPES.len();
+    let accs = par_fold(
+        n_recipes,
+        || (Vec::<Violation>::new(), 0u64, Values::new(), Interpreter::with_stdlib()),
+        |(out, n, values, interp), ri| {
+            let Some(v) = values.make(ri) else { return };
+            let own = Ty::from_impl(&v.as_type());
+            let tag = v.as_type();
+            for t in &tys {
+                let want = tag.matches(&build(t));
+                let mut statics: Vec<Ty> = vec![Ty::Any, own.clone(), Ty::union([own.clone(), Ty::Void])];
+                if want {
+                    statics.push(t.clone());
+                    statics.push(Ty::union([t.clone(), Ty::Void]));
+                }
+                for st in statics {
+                    let (s_txt, t_txt) = (st.print(), t.print());
+                    for (route, text) in [
+                        ("if-set", format!("f := (v: {s_txt}) -> any {{ if q: {t_txt} = v {{ return true }}; return false }}")),
+                        ("match-type-arm", format!("f := (v: {s_txt}) -> any {{ return match v {{ q: {t_txt} => true, => false, }} }}")),
+                        ("type-filter", format!("f := (v: {s_txt}) -> any {{ return std.len([v]~ ? {t_txt} $]) == 1 }}")),
+                    ] {
+                        let f = match guard(|| Code::parse(interp, &text).map(|c| c.exec())) {
+                            Ok(Ok(Ok(Variable::Function(f)))) => f,
+                            // a test the checker knows cannot succeed may be rejected
+                            Ok(Err(_)) if !want => continue,
+                            Ok(Err(_)) => continue,
+                            _ => {
+                                out.push(Violation { sig: format!("C10|language-membership|program-fails|{route}|{}", p(t)), detail: json!({"kind": "program", "stdlib": true, "text": text}) });
+                                continue;
+                            }
+                        };
+                        let Some(arg) = values.make(ri) else { continue };
+                        *n += 1;
+                        let got = match guard(|| f.clone().create_call(vec![arg]).map(|c| c.exec())) {
+                            Ok(Ok(Ok(r))) => crate::val::canon(&r),
+                            Ok(Ok(Err(e))) => format!("error:{}", crate::core::exec_error_kind(&e)),
+                            Ok(Err(_)) => continue, // the host rejects the argument for S: not a membership question
+                            Err(Stop::Panic(pn)) => format!("PANIC {} @{}", pn.short_msg(), pn.file()),
+                            Err(Stop::Exhausted) => continue,
+                        };
+                        if got != want.to_string() {
+                            out.push(Violation {
+                                sig: format!("C10|language-membership|{route}|tested={}|static={}|value={}", p(t), p(&st), RECIPES[ri].src.chars().take(30).collect::<String>().replace('|', "/")),
+                                detail: json!({"kind": "host_call", "program": text, "args": [RECIPES[ri].src], "expected (run-time type of the value matches the tested type)": want, "observed": got}),
+                            });
+                        }
+                    }
+                }
+            }
+        },
+    );
+    let mut out = Vec::new();
+    let mut n = 0;
+    for (v, k, _, _) in accs {
+        out.extend(v);
+        n += k;
+    }
+    (n, out)
+}
+
 pub fn run(tier: &str) -> i32 {
     let thorough = tier == "thorough";
     let mut report = Report::new("C10", tier);
@@ -263,6 +341,9 @@ pub fn run(tier: &str) -> i32 {
     });
     report.violations(val_viols);
     evals += (n * n * n_values) as u64;
+    let lang = language_membership();
+    report.violations(lang.1);
+    evals += lang.0;
 
     samples.push(|| json!({"pair": [u2[n / 3].print(), u2[2 * n / 3].print()], "matches": m[n / 3][2 * n / 3]}));
     samples.push(|| json!({"triple_checked_for_transitivity": [u2[1].print(), u2[n / 2].print(), u2[n - 1].print()]}));
@@ -278,6 +359,7 @@ pub fn run(tier: &str) -> i32 {
         "pairs_related": related,
         "triples_for_transitivity": triples,
         "palette_values": n_values,
+        "language_membership_cases (if-set / match type arm / ? T on value x tested type x static type of the tested expression)": lang.0,
         "type_pairs_separated_by_values": separated,
         "types_without_inhabitant_in_palette": thin,
         "distinct_outcomes": 2,
